@@ -271,6 +271,12 @@ Fixpoint grid_from (t0v dtv : num A) (u : string) (k : Z) (n : nat) : list qty :
   | S n' => {| qk := KTime; qv := add t0v (mul (of_Z k) dtv); qu := u |} :: grid_from t0v dtv u (k + 1)%Z n'
   end.
 
+(** the grid a run steps over, as a function of dt, T and the last recorded instant (None: fresh simulation) *)
+Definition run_grid (dt T : qty) (last : option qty) : res (qty * list qty) :=
+  t0 <- match last with Some tl => q_to tl (qu dt) | None => q_new KTime zero (qu dt) end ;;
+  x <- q_ratio T dt ;;
+  Ok (t0, grid_from (qv t0) (qv dt) (qu dt) 1 (Z.to_nat (round_half_even x))).
+
 (** Solver.run *)
 Definition run (c : chain) (load : qty -> qty -> qty -> res qty) (ctl : option (list rule)) (stop : option stopcond)
     (dt T : qty) (st : sys) : res sys :=
